@@ -311,7 +311,7 @@ fn polygons_ctor(run: &Run, name: &str, w: i32, h: i32, pts: &[(i32, i32)], ctor
 /// triangles over `pts`, filled after preamble `pre` (see PREAMBLE)
 fn polygons_pre(run: &Run, name: &str, w: i32, h: i32, pts: &[(i32, i32)], pre: u8) {
     let np = pts.len();
-    run.bound(name, format!("{}^3 triangles x 2 rules x 2 antialias modes on {}x{}", np, w, h));
+    run.bound(name, format!("{}^3 triangles (a third of them also as paths begun by LineTo / by a leading Close) x 2 rules x 2 antialias modes on {}x{}", np, w, h));
     run.par(np * np, |s, l| {
         PREAMBLE.with(|p| p.set(pre));
         for k in 0..np {
@@ -319,6 +319,16 @@ fn polygons_pre(run: &Run, name: &str, w: i32, h: i32, pts: &[(i32, i32)], pre: 
             let case = Case { w, h, ops: vec![QOp::M(a.0, a.1), QOp::L(b.0, b.1), QOp::L(c.0, c.1)] };
             l.states += 1;
             eval_case(run, 960_000 + s, &case, l, &BOTH_AA, &BOTH_RULES);
+            // the same triangle from paths without a MoveTo (begun by LineTo, by a leading Close):
+            // where such a subpath starts may not depend on the paths the target has seen before
+            for ops in [vec![QOp::L(a.0, a.1), QOp::L(b.0, b.1), QOp::L(c.0, c.1)], vec![QOp::Z, QOp::L(a.0, a.1), QOp::L(b.0, b.1), QOp::L(c.0, c.1)], vec![QOp::Z, QOp::L(a.0, a.1), QOp::L(b.0, b.1), QOp::L(c.0, c.1), QOp::Z, QOp::L(b.0, c.1)]] {
+                if (s + k) % 3 != 0 {
+                    continue;
+                }
+                let case = Case { w, h, ops };
+                l.states += 1;
+                eval_case(run, 960_000 + s, &case, l, &BOTH_AA, &BOTH_RULES);
+            }
         }
         PREAMBLE.with(|p| p.set(0));
     });
